@@ -493,6 +493,13 @@ func rflSourceFacts(repo string, b *strings.Builder) error {
 	if it == nil {
 		return fmt.Errorf("reflect extractor: alt/composer.go: indexType not found")
 	}
+	// the loop over the fields may live in a helper indexType hands the embedded types on to
+	guardsCycles := false
+	if ie := rflFuncDecl(fc, "", "indexEmbedded"); ie != nil {
+		it = ie
+		// it remembers the types it is inside of and compares them with the type it is given
+		guardsCycles = ie.Type.Params.NumFields() == 2 && strings.Contains(rflExprText(fsc, ie.Body), "== rt")
+	}
 	embOK := false
 	for _, c := range rflAllIfConds(fsc, it, "f.Anonymous") {
 		if c == "f.Anonymous && et.Kind() == reflect.Struct" {
@@ -519,6 +526,32 @@ func rflSourceFacts(repo string, b *strings.Builder) error {
 		})
 		fmt.Fprintf(b, "/-- %s/sinfo.go: how many builders wrap the index access of a flattened embedded pointer in skipNilEmbedded (272431d: all three) -/\ndef %sSkipNilEmbeddedCalls : Nat := %d\n\n", pkg, pkg, n)
 	}
+	// C06rec: the entry points recover; indexType and self-embedding types; the any-composer registration
+	recovers := func(fd *ast.FuncDecl) bool {
+		if fd == nil || fd.Body == nil {
+			return false
+		}
+		for _, st := range fd.Body.List {
+			if ds, ok := st.(*ast.DeferStmt); ok {
+				if fl, ok := ds.Call.Fun.(*ast.FuncLit); ok && rflContainsIdent(fl.Body, "recover") {
+					return true
+				}
+			}
+		}
+		return false
+	}
+	_, fa, err = rflParse(repo, "alt", "alt.go")
+	if err != nil {
+		return err
+	}
+	fmt.Fprintf(b, "/-- alt/recomposer.go: (*Recomposer).Recompose defers a recover that turns a panic into its error result -/\ndef altRecomposeRecovers : Bool := %v\n\n", recovers(rflFuncDecl(fr, "Recomposer", "Recompose")))
+	fmt.Fprintf(b, "/-- alt/alt.go: NewRecomposer defers a recover that turns a panic into its error result -/\ndef altNewRecomposerRecovers : Bool := %v\n\n", recovers(rflFuncDecl(fa, "", "NewRecomposer")))
+	fmt.Fprintf(b, "/-- alt/composer.go: the field index builder remembers the embedded types it is inside of (a type that embeds itself ends the recursion) -/\ndef altIndexTypeGuardsCycles : Bool := %v\n\n", guardsCycles)
+	ga := ""
+	if ra := rflFuncDecl(fr, "Recomposer", "registerAnyComposer"); ra != nil {
+		ga, _ = rflIfWithCond(fsr, ra, "c == nil", true)
+	}
+	fmt.Fprintf(b, "/-- alt/recomposer.go registerAnyComposer: when a new composer is built -/\ndef altRegisterAnyNewCond : String := %q\n\n", ga)
 	fmt.Fprintf(b, "/-- alt/recomposer.go registerComposer: when a new composer is built -/\ndef altRegisterNewCond : String := %q\n\n", g1)
 	fmt.Fprintf(b, "/-- alt/recomposer.go recomp: the lookups of a composer by bare type name -/\ndef altRecompLookups : List String := %s\n\n", rflLeanList(g2))
 	return nil
